@@ -54,7 +54,9 @@ def parse_module(path):
     pending = None
     while i < len(lines):
         ln = lines[i].strip()
-        if ln.startswith("//@host"):
+        if ln.startswith("//@always"):
+            mod["always"] = True
+        elif ln.startswith("//@host"):
             mod["host"] = ln.split(None, 1)[1].strip()
         elif ln.startswith("//@config"):
             mod["configs"] = [c.strip() for c in ln.split(None, 1)[1].split(",") if c.strip()]
